@@ -82,7 +82,17 @@ func genSmap(r *rng, n int, tier string) []string {
 		var ops []string
 		m := r.intn(30)
 		for j := 0; j < m; j++ {
-			switch r.intn(9) {
+			switch r.intn(11) {
+			case 9: // the same operation again, with nothing in between
+				if len(ops) > 0 {
+					ops = append(ops, ops[len(ops)-1])
+				}
+			case 10: // an earlier operation again; advances that do not move
+				if len(ops) > 0 && r.chance(1, 2) {
+					ops = append(ops, ops[r.intn(len(ops))])
+				} else {
+					ops = append(ops, pick(r, []string{"C:0", "S:"}))
+				}
 			case 0, 1, 2:
 				ops = append(ops, fmt.Sprintf("M:%d:%d", smapNumber(r), smapNumber(r)))
 			case 3, 4:
